@@ -1217,6 +1217,9 @@ package lorawan
 //@ func lemmaC01_cflist_chmask
 //@   props C01
 //@   inlines (CFList).MarshalBinary (*CFList).UnmarshalBinary (CFListChannelMaskPayload).MarshalBinary (*CFListChannelMaskPayload).UnmarshalBinary
+//@ func lemmaC01_cflist_chmask6
+//@   props C01
+//@   inlines (CFList).MarshalBinary (*CFList).UnmarshalBinary (CFListChannelMaskPayload).MarshalBinary (*CFListChannelMaskPayload).UnmarshalBinary
 //@ func bytesEqualIdx
 //@   modifies nothing
 //@   ensures eq: result <==> (len(a) == len(b) && forall i int :: 0 <= i && i < len(a) ==> a[i] == b[i])
